@@ -36,7 +36,13 @@ def check(ck: Checker) -> None:
     _listing_meta(ck)
 
 
-def _written_keys(fn: Func, var: str = "ret") -> Dict[str, ast.Assign]:
+def _ret_name(fn: Func) -> Optional[str]:
+    names = {r.value.id for r in walk_own(fn.node) if isinstance(r, ast.Return) and isinstance(r.value, ast.Name)}
+    return names.pop() if len(names) == 1 else None
+
+
+def _written_keys(fn: Func, var: Optional[str] = None) -> Dict[str, ast.Assign]:
+    var = var or _ret_name(fn) or "ret"
     out = {}
     for s in walk_own(fn.node):
         if isinstance(s, ast.Assign) and isinstance(s.targets[0], ast.Subscript) and norm(s.targets[0].value) == var:
@@ -51,26 +57,35 @@ def _entry(ck: Checker) -> None:
     td = prog.func("index.index", "DataIndexEntry.to_dict")
     fd = prog.func("index.index", "DataIndexEntry.from_dict")
     w = _written_keys(td)
-    r: Set[str] = set()
+    dparam = fd.pos_params[-1]
+    obj = _ret_name(fd)
+    gfd = ck.cfg(fd)
+    reads: Dict[str, ast.AST] = {}
     for c in walk_own(fd.node):
-        if isinstance(c, ast.Call) and is_method_call(c, "get") and norm(c.func.value) == "d" and c.args and isinstance(c.args[0], ast.Constant):
-            r.add(c.args[0].value)
-        if isinstance(c, ast.Subscript) and norm(c.value) == "d" and isinstance(c.slice, ast.Constant):
-            r.add(c.slice.value)
-    ck.require(set(w) == r == {"meta", "hash_info", "loaded"}, "C20.entry", td, td.node, f"keys written {sorted(w)} = keys read {sorted(r)}", f"entry dict keys disagree: written {sorted(w)}, read {sorted(r)}", construct="entry keys")
-    conv = {"meta": ("self.meta.to_dict()", "Meta.from_dict("), "hash_info": ("self.hash_info.to_dict()", "HashInfo.from_dict(")}
-    rsrc = " ".join(norm(x) for x in walk_own(fd.node) if isinstance(x, ast.Assign))
+        if isinstance(c, ast.Call) and is_method_call(c, "get") and norm(c.func.value) == dparam and c.args and isinstance(c.args[0], ast.Constant):
+            reads[c.args[0].value] = c
+        if isinstance(c, ast.Subscript) and norm(c.value) == dparam and isinstance(c.slice, ast.Constant):
+            reads[c.slice.value] = c
+    ck.require(set(w) == set(reads) == {"meta", "hash_info", "loaded"}, "C20.entry", td, td.node, f"keys written {sorted(w)} = keys read {sorted(reads)}", f"entry dict keys disagree: written {sorted(w)}, read {sorted(reads)}", construct="entry keys")
+    # each key is restored into the attribute of the same name, through the matching converter
+    conv = {"meta": ("self.meta.to_dict()", "Meta.from_dict"), "hash_info": ("self.hash_info.to_dict()", "HashInfo.from_dict"), "loaded": ("self.loaded", None)}
     for k, (wv, rv) in conv.items():
         okw = k in w and norm(w[k].value) == wv
-        okr = f"ret.{k} = {rv}" in rsrc
-        ck.require(okw and okr, "C20.entry", td, w.get(k, td.node), f"'{k}' goes through {wv} / {rv}...)", f"'{k}' is not converted symmetrically (writer {norm(w[k].value) if k in w else None})", construct=f"entry.{k} converters")
-    # loaded written on every path
+        okr = False
+        for n in gfd.nodes.values():
+            a_ = n.ast
+            if n.kind == "stmt" and isinstance(a_, ast.Assign) and obj and norm(a_.targets[0]) == f"{obj}.{k}" and k in reads:
+                from ..an import flows_from_calls
+
+                src_ok = flows_from_calls(gfd, n, a_.value, [reads[k]], depth=3) if isinstance(reads[k], ast.Call) else any(x is reads[k] for x in walk_expr(a_.value))
+                conv_ok = rv is None or (isinstance(a_.value, ast.Call) and norm(a_.value.func) == rv)
+                okr = okr or (src_ok and conv_ok)
+        ck.require(okw and okr, "C20.entry", td, w.get(k, td.node), f"'{k}' is written from self.{k} and restored into .{k} through the matching converter", f"'{k}' is not converted symmetrically (writer {norm(w[k].value) if k in w else None}; reader restores .{k}: {okr})", construct=f"entry.{k} converters")
     g = ck.cfg(td)
     ln = [n for n in g.nodes.values() if n.ast is w.get("loaded")]
     if ln:
         wpath = avoiding_path(g, g.exit, lambda x: x.id == ln[0].id)
-        ck.require(wpath is None and norm(w["loaded"].value) == "self.loaded", "C20.entry", td, ln[0], "loaded flag is always written", "the loaded flag is not written on every path (or not from self.loaded)")
-    ck.require("ret.loaded =" in rsrc, "C20.entry", fd, fd.node, "loaded flag is read back", "from_dict does not restore `loaded`", construct="ret.loaded = ...")
+        ck.require(wpath is None, "C20.entry", td, ln[0], "loaded flag is always written", "the loaded flag is not written on every path")
 
 
 def _meta(ck: Checker) -> None:
@@ -87,7 +102,7 @@ def _meta(ck: Checker) -> None:
         if not isinstance(st, ast.If):
             continue
         for b in st.body:
-            if isinstance(b, ast.Assign) and isinstance(b.targets[0], ast.Subscript) and norm(b.targets[0].value) == "ret":
+            if isinstance(b, ast.Assign) and isinstance(b.targets[0], ast.Subscript) and norm(b.targets[0].value) == (_ret_name(td) or "ret"):
                 n += 1
                 key = resolve_const(ck, td, b.targets[0].slice)
                 val = norm(b.value)
@@ -168,8 +183,21 @@ def _trie(ck: Checker) -> None:
         raise AnalysisError("DataIndexTrie._dump/_load vanished")
     d_src = [norm(r.value) for r in walk_own(dump.node) if isinstance(r, ast.Return) and r.value is not None]
     ck.require(any("value.to_dict()" in s and s.startswith("super()._dump(key") for s in d_src), "C20.trie", dump, dump.node, "_dump serialises value.to_dict()", f"_dump returns {d_src}")
-    l_src = " ".join(norm(x) for x in walk_own(load.node) if isinstance(x, (ast.Assign, ast.Return)))
-    ck.require("DataIndexEntry.from_dict(d)" in l_src and "entry.key = key" in l_src and "return entry" in l_src, "C20.trie", load, load.node, "_load rebuilds the entry with from_dict and restores its key", "_load does not rebuild DataIndexEntry.from_dict(d) with entry.key = key")
+    gl = ck.cfg(load)
+    from ..an import flows_from_calls, reaching_defs
+
+    fdc = [c for c in walk_own(load.node) if isinstance(c, ast.Call) and norm(c.func) == "DataIndexEntry.from_dict"]
+    sup = [c for c in walk_own(load.node) if isinstance(c, ast.Call) and isinstance(c.func, ast.Attribute) and c.func.attr == "_load" and norm(c.func.value).startswith("super(")]
+    okl = bool(fdc) and bool(sup)
+    main_ret = [n for n in gl.nodes.values() if n.kind == "stmt" and isinstance(n.ast, ast.Return) and isinstance(n.ast.value, ast.Name) and flows_from_calls(gl, n, n.ast.value, fdc)]
+    okl = okl and bool(main_ret)
+    for r in main_ret:
+        nm = r.ast.value.id
+        keyset = [n for n in gl.nodes.values() if n.kind == "stmt" and isinstance(n.ast, ast.Assign) and norm(n.ast.targets[0]) == f"{nm}.key" and norm(n.ast.value) == load.pos_params[1]]
+        okl = okl and bool(keyset) and all(avoiding_path(gl, r.id, lambda x, k=k: x.id == k.id) is None for k in keyset[:1])
+    for c in fdc:
+        okl = okl and bool(c.args) and flows_from_calls(gl, next(n for n in gl.nodes.values() if any(x is c for x in calls_at(n))), c.args[0], sup)
+    ck.require(okl, "C20.trie", load, load.node, "_load rebuilds the entry with from_dict(super()._load(...)) and restores its key", "_load does not rebuild DataIndexEntry.from_dict(<decoded dict>) with entry.key = key")
     for name in ("__setitem__", "__delitem__", "delete_node"):
         m = cls.methods.get(name)
         if m is None:
@@ -191,11 +219,26 @@ def _trie(ck: Checker) -> None:
 def _listing_meta(ck: Checker) -> None:
     prog = ck.prog
     al = prog.func("hashfile.tree", "Tree.as_list")
-    dicts = [d for d in walk_own(al.node) if isinstance(d, ast.Dict) and any(k is None for k in d.keys)]
+    g = ck.cfg(al)
     ok = False
+    # form A: one dict display  {**meta-part, **hash-part, PATH: join}
+    dicts = [d for d in walk_own(al.node) if isinstance(d, ast.Dict) and any(k is None for k in d.keys)]
     for d in dicts:
         spreads = [norm(v) for k, v in zip(d.keys, d.values) if k is None]
-        ok = any("meta.to_dict() if with_meta else {}" in s for s in spreads) and any("_hi_to_dict(hi)" in s or "hi.to_dict()" in s for s in spreads)
-        # the path key comes last so nothing can overwrite it
-        ok = ok and d.keys[-1] is not None
-    ck.require(ok, "C20.listing", al, al.node, "with-meta listing merges meta.to_dict(), the hash field and the path (path last)", "as_list does not merge meta.to_dict() (when with_meta), the hash field and the relpath in that order", construct="as_list row dict")
+        ok = any("meta.to_dict() if with_meta else {}" in s_ for s_ in spreads) and len(spreads) >= 2 and d.keys[-1] is not None
+    # form B: row dict filled step by step:  row.update(meta.to_dict()) [if with_meta]; row.update(hash); row[PATH] = join
+    if not ok:
+        stores = [n for n in g.nodes.values() if n.kind == "stmt" and isinstance(n.ast, ast.Assign) and isinstance(n.ast.targets[0], ast.Subscript)
+                  and isinstance(n.ast.value, ast.Call) and is_method_call(n.ast.value, "join")]
+        for p_ in stores:
+            row = norm(p_.ast.targets[0].value)
+            ups = [(n, c) for n in g.nodes.values() for c in calls_at(n) if is_method_call(c, "update") and norm(c.func.value) == row]
+            meta_up = [n for n, c in ups if c.args and norm(c.args[0]).endswith("meta.to_dict()")]
+            hash_up = [n for n, c in ups if n not in meta_up]
+            if meta_up and hash_up:
+                from ..an import cut
+
+                guarded = all(cut(g, [n.id], lambda t, lab: t.kind == "test" and norm(t.ast) == "with_meta" and lab == "T") is None for n in meta_up)
+                before = all(avoiding_path(g, p_.id, lambda x, h=h: x.id == h.id, start=p_.loops[-1] if p_.loops else None) is None for h in hash_up)
+                ok = guarded and before
+    ck.require(ok, "C20.listing", al, al.node, "with-meta listing merges meta.to_dict() (only when with_meta), the hash field and the path (path last)", "as_list does not merge meta.to_dict() (when with_meta), the hash field and the relpath in that order", construct="as_list row dict")
